@@ -12,7 +12,8 @@ RULE = ("exhaustive: all ordered pairs (A,B) of tiers made of disjoint intervals
         "non-trivial = both operands have entries")
 TRUSTED = ["oracle: direct Python statement of the property (harness/props/C10.py:oracle)"]
 ASSUMPTIONS = ["well-formed operands with non-negative times; distinct boundary times differ by more than 1e-9 relative",
-               "where two fused inputs start at the same time, either order of their labels is accepted ('time order')"]
+               "the label of a fused entry is the '-'-join of the labels of ALL fused inputs in tuple order (start, then end, then "
+               "label) - the exact rule proved as C10.union_label_cluster; it implies (weak) start-time order"]
 OPS = ["iunion", "idiff", "iinter", "imergelabels"]
 
 case_json = lambda c: c
@@ -122,6 +123,10 @@ def oracle(c, r):
                 return Failure(dict(sig, clause="fusion"), f"entry {e} expected extent ({lo},{hi})")
             if e[2] not in label_orders(comp):
                 return Failure(dict(sig, clause="labels"), f"label {e[2]!r} is not the time-ordered join of {[m[2] for m in comp]}")
+            # the exact rule (theorem C10.union_label_cluster): all members in tuple order (start, end, label)
+            exact = "-".join(m[2] for m in sorted(comp, key=lambda m: (m[0], m[1], m[2])))
+            if e[2] != exact:
+                return Failure(dict(sig, clause="labels-exact"), f"label {e[2]!r} expected {exact!r} (members in tuple order)")
     # nothing invented
     for x in pts:
         if cov(out, x) and not (cov(a_es, x) or cov(b_es, x)):
